@@ -464,6 +464,37 @@ impl Check for C12 {
             }
             st.evaluations += 1;
         }
+        // nesting depth through the constructors: a taproot tree built by TapTree::combine may
+        // have leaves down to depth 128, not 129
+        {
+            use miniscript::descriptor::{TapTree, Tr};
+            let leaf = |i: usize| TapTree::leaf(Miniscript::<DK, Tap>::from_str(&format!("pk({})", keys::key_xonly(i % 12))).unwrap());
+            for (depth, want_ok) in [(127usize, true), (128, true), (129, false), (130, false)] {
+                for left in [true, false] {
+                    let mut t = Ok(leaf(0));
+                    for d in 0..depth {
+                        t = match t {
+                            Ok(x) => {
+                                if left {
+                                    TapTree::combine(x, leaf(d + 1))
+                                } else {
+                                    TapTree::combine(leaf(d + 1), x)
+                                }
+                            }
+                            e => e,
+                        };
+                    }
+                    let ok = match t {
+                        Ok(tree) => Tr::new(DK::from_str(&keys::key_xonly(1)).unwrap(), Some(tree)).is_ok(),
+                        Err(_) => false,
+                    };
+                    st.evaluations += 1;
+                    if ok != want_ok {
+                        return fail(&format!("ctor-{}/taptree-depth-{}", if ok { "accepts" } else { "rejects" }, depth), format!("a tree with a leaf at depth {} built through TapTree::combine + Tr::new is {}", depth, if ok { "accepted" } else { "rejected" }));
+                    }
+                }
+            }
+        }
         Ok(serde_json::json!({"threshold_constructor_table": "k 0..=n+1, n 0..=MAX+3 for MAX in {0 (unbounded, n <= 24), 3, 20}; new / from_iter with exact and inexact size hints / set_maximum"}))
     }
     fn run_case(&self, lane: &str, src: &mut Src, rep: &mut Report) -> Result<(), Failure> {
@@ -675,6 +706,35 @@ impl Check for C12 {
                             }
                         } else if bad_internal {
                             rep.class("rejected:translate_pk-bad-internal-key");
+                        }
+                    }
+                }
+                // key-only descriptors through translation: a key kind the output type refuses
+                // must make the translation fail
+                {
+                    let (tmpl, legal): (&str, fn(usize) -> bool) = match src.below(5) {
+                        0 => ("wpkh(K0)", |l| l == 66),
+                        1 => ("sh(wpkh(K0))", |l| l == 66),
+                        2 => ("pkh(K0)", |l| l == 66 || l == 130),
+                        3 => ("tr(K0)", |l| l == 66 || l == 64),
+                        _ => ("tr(K0,pk(K0))", |l| l == 66 || l == 64),
+                    };
+                    let key = match src.below(3) {
+                        0 => keys::key_uncompressed(src.below(8)),
+                        1 => keys::key_xonly(src.below(8)),
+                        _ => keys::key_compressed(src.below(8)),
+                    };
+                    if let Ok(t) = Descriptor::<String>::from_str(tmpl) {
+                        let mut map = std::collections::HashMap::new();
+                        map.insert("K0".to_string(), key.clone());
+                        let ok = t.translate_pk(&mut crate::checks::c20::ToConcrete { map }).is_ok();
+                        let parsed = Descriptor::<DK>::from_str(&tmpl.replace("K0", &key)).is_ok();
+                        rep.class(format!("translate-key-only:{}", if ok { "accepted" } else { "rejected" }));
+                        if ok && !legal(key.len()) {
+                            return fail("translate_pk-accepts/illegal-key-kind", format!("translating `{}` to the {}-hex-digit key {} is accepted", tmpl, key.len(), key));
+                        }
+                        if ok != parsed {
+                            return fail("translate_pk-vs-parser/key-only", format!("`{}` with K0 = {}: translation {} but the parser {} the same text", tmpl, key, if ok { "succeeds" } else { "fails" }, if parsed { "accepts" } else { "rejects" }));
                         }
                     }
                 }
